@@ -53,6 +53,11 @@ def machine_jobs(ctx):
     # seeded rows, 1/64 unit either side of the boundaries, every order
     jobs.append(("qam<=64/seeded", dict(kind="QAM", cards=[4, 16, 64], d=64, smode="seeded", nrows=16 if th else 6, rowlen=32, seed=s)))
     jobs.append(("bpsk/seeded", dict(kind="BPSK", cards=[2], d=1024, smode="seeded", nrows=8, rowlen=32, seed=s)))
+    # extreme scale ratios (exact sign of a linear form): BPSK is a sign detector - any scale; the generic detector
+    # compares rounded distances, so the lattice regime stays where float64 can resolve the margin (1e-7 .. 1e3 units)
+    jobs.append(("bpsk/scaled", dict(kind="BPSK", cards=[2], smode="scaled", nrows=32 if th else 12, rowlen=32, seed=s,
+                                     exps=(-200, -18, -9, 0, 7, 100))))
+    jobs.append(("qam<=64/scaled", dict(kind="QAM", cards=[4, 16, 64], smode="scaled", nrows=16 if th else 6, rowlen=32, seed=s, exps=(-7, 0))))
     n = 64 if th else 8
     jobs.append(("qam256-1024/seeded", dict(kind="QAM", cards=[256, 1024], d=64, smode="seeded", nrows=n, rowlen=32, seed=s)))
     jobs.append(("qam4096/seeded", dict(kind="QAM", cards=[4096], d=64, smode="seeded", nrows=48 if th else 6, rowlen=32, seed=s)))
@@ -94,47 +99,101 @@ class Live:
 BLOCKS = [((4, 6), "F"), ((6, 4), "T"), ((2, 3, 4), "F"), ((4, 3, 2), "T"), ((8, 3), "strided"), ((3, 8), "lastaxis"),
           ((24,), "reversed"), ((2, 12), "reversed"), ((24,), "strided"), ((1, 24), "T")]
 _rot = [0]
+_long_done = set()
 
 
-def check_rows(ctx, live, rows, label, present=None):
-    """rows: emitted demod cases of live's (kind, M).  Every sample is demodulated twice: in long 1-d
-    chunks, and in blocks of 24 handed over as 2-d / 3-d arrays in non-contiguous memory layouts
-    (Fortran order, transposed view, strided, reversed); both compared position by position."""
-    tb = live.tb
-    if not tb.tabok or len(tb.lookup) != live.M:
-        return 0        # stage T reports the broken table; nothing can be looked up
-    a = np.concatenate([np.asarray(r["a"], dtype=np.int64) for r in rows])
-    b = np.concatenate([np.asarray(r["b"], dtype=np.int64) for r in rows])
+def row_samples(tb, rows):
+    """emitted rows -> (complex samples, nearest coordinates, JSON-able sample descriptions, d), ties dropped"""
     d = rows[0]["d"]
     near = [c for r in rows for c in r["near"]]
     tie = -1 if tb.kind == "PSK" else [0, 0]
     keep = np.array([c != tie for c in near], dtype=bool)
     near = [c for c in near if c != tie]
+    if rows[0].get("smode") == "scaled":
+        ss = [x for r in rows for x in r["ss"]]
+        S = np.array(ss, dtype=float)[keep]
+        # exact meaning of a scaled sample (ConstellationOps): x0 + x1*10^ex, y0 + y1*10^ey lattice units
+        z = tb.unit * ((S[:, 0] + S[:, 1] * 10.0 ** S[:, 2]) + 1j * (S[:, 3] + S[:, 4] * 10.0 ** S[:, 5]))
+        items = [x for x, k in zip(ss, keep) if k]
+    else:
+        a = np.concatenate([np.asarray(r["a"], dtype=np.int64) for r in rows])[keep]
+        b = np.concatenate([np.asarray(r["b"], dtype=np.int64) for r in rows])[keep]
+        z = np.asarray(tb.sample(a, b, d), dtype=complex)
+        items = [[int(x), int(y)] for x, y in zip(a, b)]
+    return np.asarray(z, dtype=complex), near, items, d
+
+
+def frame_lengths(M):
+    """lengths of LONG frames: just above / around small multiples of every block size 2^k // M an implementation
+    might process at a time (the whole M x N distance matrix is what bounds the memory)"""
+    out = []
+    for k in (18, 20, 22):
+        B = max(1, 2 ** k // M)
+        out += [B + 3] + ([2 * B + B // 4 + 1] if k < 22 or M >= 256 else []) + ([3 * B - 1] if k == 20 else [])
+    return sorted(set(x for x in out if x >= 64))
+
+
+def check_long(ctx, live, z, exp, near, items, label, base):
+    """long frames: the emitted samples repeated up to lengths that cross internal block sizes; 1-d and 2-d"""
+    if len(z) < 8:
+        return 0
+    for L in frame_lengths(live.M):
+        rot = L % len(z)
+        idx = (np.arange(L) + rot) % len(z)
+        frame = z[idx]
+        want = exp[idx]
+        shp = (2, L // 2) if L % 2 == 0 else (L,)
+        try:
+            got = np.asarray(live.obj.demodulate(frame.reshape(shp)))
+        except Exception as ex:
+            ctx.violation(f"{label}: demodulate of a frame of {L} samples raised {type(ex).__name__}: {ex}", dict(base, s=items[:8], near=near[:8], present=None, frame=L))
+            return 1
+        ok_shape = got.shape == tuple(shp)
+        wrong = np.nonzero(got.reshape(-1) != want)[0] if ok_shape else np.arange(L)
+        if len(wrong):
+            i = int(wrong[0])
+            ctx.violation(f"{label}: in a frame of {L} samples (shape {shp}) position {i} (sample {items[idx[i]]}) is detected as "
+                          f"{int(got.reshape(-1)[i]) if ok_shape else 'shape ' + str(got.shape)}, nearest point {near[idx[i]]} carries label {int(want[i])} "
+                          f"({len(wrong)} positions wrong, the first at {i}, the last at {int(wrong[-1])})",
+                          dict(base, s=items, near=near, present=None, frame=L))
+            return len(wrong)
+        ctx.ok((label, "frame", L), n=L)
+    return 0
+
+
+def check_rows(ctx, live, rows, label, present=None, frame=None):
+    """rows: emitted demod cases of live's (kind, M).  Every sample is demodulated twice: in long 1-d
+    chunks, and in blocks of 24 handed over as 2-d / 3-d arrays in non-contiguous memory layouts
+    (Fortran order, transposed view, strided, reversed); both compared position by position.  At the first
+    table of an object the samples are also sent as LONG frames (frame_lengths)."""
+    tb = live.tb
+    if not tb.tabok or len(tb.lookup) != live.M:
+        return 0        # stage T reports the broken table; nothing can be looked up
+    z, near, items, d = row_samples(tb, rows)
     exp = np.array([tb.lookup[c if tb.kind == "PSK" else tuple(c)] for c in near], dtype=np.int64)
-    a, b = a[keep], b[keep]
-    z = np.asarray(tb.sample(a, b, d), dtype=complex)
-    base = {"stage": "R", "kind": live.kind, "M": live.M, "phases": live.phases[:live.step + 1], "d": d}
+    base = {"stage": "R", "kind": live.kind, "M": live.M, "phases": live.phases[:live.step + 1], "d": d, "smode": rows[0].get("smode")}
     nbad = 0
-
-    def report(idxs, got, how):
-        i = int(idxs[0])
-        ctx.violation(f"{label}: demodulate(sample {int(a[i])},{int(b[i])} /{d}){how} = {int(got)}, nearest point {near[i]} carries label {int(exp[i])} "
-                      f"({len(idxs)} positions wrong)", dict(base, a=[int(a[i])], b=[int(b[i])], near=[near[i]], present=None))
-
+    if frame is not None:
+        return check_long(ctx, live, z, exp, near, items, label, base)
     if present is None:
         try:
             got = cc.demod_chunked(live.obj, z)
         except Exception as ex:
-            ctx.violation(f"{label}: demodulate raised {type(ex).__name__}: {ex}", dict(base, a=[int(v) for v in a[:24]], b=[int(v) for v in b[:24]],
-                                                                                      near=near[:24], present=None))
+            ctx.violation(f"{label}: demodulate raised {type(ex).__name__}: {ex}", dict(base, s=items[:24], near=near[:24], present=None))
             return 1
         wrong = np.nonzero(got != exp)[0]
         if len(wrong):
-            report(wrong, got[wrong[0]], "")
+            i = int(wrong[0])
+            ctx.violation(f"{label}: demodulate(sample {items[i]}{'' if base['smode'] == 'scaled' else ' /' + str(d)}) = {int(got[i])}, nearest point {near[i]} "
+                          f"carries label {int(exp[i])} ({len(wrong)} of {len(exp)} samples of this table wrong)",
+                          dict(base, s=[items[i]], near=[near[i]], present=None))
         ctx.ok(n=int(len(exp) - len(wrong)))
         nbad += len(wrong)
         for i in range(0, len(exp), max(1, len(exp) // 200)):        # a bounded number of identifying keys
-            ctx.distinct.add((live.kind, live.M, live.step, d, int(a[i]), int(b[i])))
+            ctx.distinct.add((live.kind, live.M, live.step, d, str(items[i])))
+        if live.step == 0 and base["smode"] in ("grid", "seeded") and (live.kind, live.M) not in _long_done:
+            _long_done.add((live.kind, live.M))         # once per modulator class and order
+            nbad += check_long(ctx, live, z, exp, near, items, label, base)
     # blocks of 24 samples as non-contiguous multi-dimensional arrays
     nblk = len(z) // 24
     reported = False
@@ -143,7 +202,7 @@ def check_rows(ctx, live, rows, label, present=None):
         shp, lay = BLOCKS[(_rot[0] + k) % len(BLOCKS)] if present is None else (tuple(present[0]), present[1])
         sl = slice(24 * k, 24 * k + int(np.prod(shp)))
         arr = cc.as_layout(z[sl].reshape(shp), lay, fill=7 + 7j)
-        case = dict(base, a=[int(v) for v in a[sl]], b=[int(v) for v in b[sl]], near=near[sl], present=[list(shp), lay])
+        case = dict(base, s=items[sl], near=near[sl], present=[list(shp), lay])
         snap = np.array(arr, copy=True)
         try:
             out = np.asarray(live.obj.demodulate(arr))
@@ -165,7 +224,7 @@ def check_rows(ctx, live, rows, label, present=None):
             if not reported:
                 reported = True
                 j = int(w[0])
-                ctx.violation(f"{label}: demodulate of a {lay}-layout array of shape {shp}: position {j} (sample {case['a'][j]},{case['b'][j]} /{d}) = "
+                ctx.violation(f"{label}: demodulate of a {lay}-layout array of shape {shp}: position {j} (sample {case['s'][j]}) = "
                               f"{'shape ' + str(out.shape) if g is None else int(g[j])}, nearest point {case['near'][j]} carries label {int(exp[sl][j])} "
                               f"({len(w)} of {len(exp[sl])} positions of the block wrong)", case)
         else:
@@ -230,7 +289,8 @@ def run(ctx):
     jobs = machine_jobs(ctx)
     with ThreadPoolExecutor(cc.nthreads()) as ex:
         futs = [(n, ex.submit(cc.run_machine, **kw)) for n, kw in jobs]
-        devf = ex.submit(cc.model_devs, ctx, ["QamAcceptsOne", "NoNormalisation", "ModulateWraps", "DetectRealOnly", "ModulateReusesBuffer"])
+        devf = ex.submit(cc.model_devs, ctx, ["QamAcceptsOne", "NoNormalisation", "ModulateWraps", "DetectRealOnly", "ModulateReusesBuffer",
+                                              "AbsorbsTinyTerms", "BlockwiseRoundsDown"])
         specs = history_specs(ctx)
         traces = [cc.record_history(sp)[0] for sp in specs]
         runs = [(n, f.result()) for n, f in futs]
@@ -266,8 +326,15 @@ def replay(ctx, data):
     live = Live(c["kind"], c["M"], c["phases"])
     while live.step + 1 < len(live.phases):
         live.advance()
-    a = c["a"] if isinstance(c["a"], list) else [c["a"]]
-    b = c["b"] if isinstance(c["b"], list) else [c["b"]]
-    near = c["near"] if isinstance(c["a"], list) else [c["near"]]
-    row = {"a": a, "b": b, "d": c["d"], "near": near}
-    check_rows(ctx, live, [row], "replay", present=c.get("present"))
+    if "s" in c:
+        sm = c.get("smode")
+        row = {"d": c["d"], "near": c["near"], "smode": sm}
+        if sm == "scaled":
+            row["ss"] = c["s"]
+        else:
+            row["a"], row["b"] = [x[0] for x in c["s"]], [x[1] for x in c["s"]]
+    else:       # cases stored by earlier versions
+        a = c["a"] if isinstance(c["a"], list) else [c["a"]]
+        b = c["b"] if isinstance(c["b"], list) else [c["b"]]
+        row = {"a": a, "b": b, "d": c["d"], "near": c["near"] if isinstance(c["a"], list) else [c["near"]]}
+    check_rows(ctx, live, [row], "replay", present=c.get("present"), frame=c.get("frame"))
